@@ -132,6 +132,21 @@ def run_case(c):
             out.append([bool(gc.is_start(w)) for w in words] if v == "old" else sorted(gc.stop_codons))
             return out
         return observe(f)
+    if k == "degen_codons":
+        # old Sequence.get_translation on every codon of IUPAC nucleotide symbols, include_stop False / True
+        def one(w, inc):
+            seq = m["om"].DNA.make_seq(w, name="s0")
+            return str(seq.get_translation(gc=c["id"], incomplete_ok=False, include_stop=inc, trim_stop=False))
+        syms = c["syms"]
+        words = ["".join(p) for p in itertools.product(syms, repeat=3)]
+        out = []
+        for inc in (False, True):
+            row = []
+            for w in words:
+                r = observe(one, w, inc)
+                row.append("!" if isinstance(r, Exc) else r)
+            out.append("".join(row))
+        return out
     if k == "codontable":
         canon = "TCAG"
         words = ["".join(p) for p in itertools.product(canon, repeat=3)]
@@ -157,12 +172,12 @@ def run_case(c):
             return list(get_gc("old", c["id"]).sixframes(seq))
         return observe(g)
     if k == "app_frames":
-        # cogent3.app.translate.translate_frames (uses the old objects) with allow_rc
+        # cogent3.app.translate.translate_frames (uses the old objects)
         def f():
             from cogent3.app.translate import translate_frames
 
             seq = m["om"].DNA.make_seq(c["s"], name="s0")
-            return list(translate_frames(seq, gc=c["id"], allow_rc=True))
+            return list(translate_frames(seq, gc=c["id"], allow_rc=c.get("allow_rc", True)))
         return observe(f)
     if k == "app_translate_seqs":
         # cogent3.app.translate.translate_seqs on a collection (aligned or not), both trim settings
